@@ -26,7 +26,7 @@ ASSUMPTIONS = [
     "set_time with a different time: either the new value replaces the old one (current behaviour) or the call is refused with ProvException and nothing changes - both are consistent with the statement",
     "not claimed (as the statement says): one membership call with several prov:entity values",
 ]
-REQUIRED_CLASSES = {"all": ["via:convenience", "via:alias", "via:new_record", "via:factory", "op:readd_same", "op:readd_diff_refused",
+REQUIRED_CLASSES = {"all": ["via:convenience", "via:alias", "via:new_record", "via:factory", "op:readd_same", "op:readd_diff_refused", "op:double_refused", "op:double_at_creation_refused",
                             "op:set_time", "op:asserted_type", "value:tlit", "spell:str", "spell:bare", "ref:record-object",
                             "time:str"]}
 
@@ -107,6 +107,8 @@ def strategy(tier):
         st.builds(lambda i, v: ["asserted_type", i, v], st.integers(0, 30),
                   gen.value("json", ["qn", "qn", "str", "tlit", "uri", "lit"])),
         st.sampled_from(NSS).map(lambda u: ["set_default", u]),
+        st.builds(lambda i, k, n1, n2, t1, t2, new: ["double", i, k, n1, n2, t1, t2, new], st.integers(0, 30), st.integers(0, 4),
+                  _name(), _name(), gen.datetime_iso(), gen.datetime_iso(), st.booleans()),
     )
     return st.lists(op, min_size=1, max_size=8).map(lambda ops: {"profile": "json", "ops": ops})
 
@@ -150,6 +152,25 @@ def matrix(tier):
                                                        {"ns": "http://other.example/", "local": "different", "prefix": "oth", "as": "qn"},
                                                        "1999-12-31T23:59:59", form]],
                            "cell": ["readd", kind, arg, same, form]}
+    # two DIFFERENT values for one formal argument arriving in ONE call (pair list), on a record that has the argument
+    # (current value + another) and while creating a record (new_record with the argument named twice)
+    for kind in spec.KIND_LIST:
+        pname, tname, is_el, fargs, mand, fac, fac_id = spec.KINDS[kind]
+        formal = {}
+        for i, (arg, typ) in enumerate(fargs):
+            if typ == "time":
+                formal[arg] = {"t": "2012-03-02T10:30:00+01:00", "as": "dt"}
+            else:
+                formal[arg] = {"name": {"ns": NSS[i % 3], "local": ["e1", "a1", "ag1"][i % 3], "prefix": "zz", "as": "qn"}}
+        idn = {"ns": "http://a/", "local": "r1", "prefix": "ex", "as": "qn"} if is_el else None
+        for k, (arg, typ) in enumerate(fargs):
+            for new in (False, True):
+                yield {"profile": "json", "ops": [["rec", 0, kind, idn, formal, [], "factory"],
+                                                  ["double", len(SETUP) - 3, k,
+                                                   {"ns": "http://other.example/", "local": "different", "prefix": "oth", "as": "qn"},
+                                                   {"ns": "http://other.example/", "local": "another", "prefix": "oth", "as": "qn"},
+                                                   "1999-12-31T23:59:59", "2001-01-01T00:00:00", new]],
+                       "cell": ["double", kind, arg, new]}
     # activity with times, every path and time form
     for via, tform in itertools.product(["factory", "new_record"], ["dt", "str"]):
         yield {"profile": "json", "ops": [["rec", 0, "activity", {"ns": "http://a/", "local": "a9", "prefix": "ex", "as": "str"},
@@ -257,6 +278,57 @@ def _c05_op(b, op, items, ctx):
                 ctx.count("op:readd_diff_refused")
             if crecord(rec) != before and not items:
                 items.append(_it("refusal_changed_record"))
+    elif code == "double":
+        si, rec, m = b.records[op[1] % len(b.records)]
+        fargs = spec.formal_args(m["kind"])
+        if not fargs:
+            return
+        arg, typ = fargs[op[2] % len(fargs)]
+        auri = spec.PROV_NS + arg
+        if m["kind"] == "membership" and arg == "entity":
+            return      # several members in one membership: compatibility path, not claimed
+        if typ == "ref":
+            if name_uri(op[3]) == name_uri(op[4]):
+                return
+            v1, v2 = spell(b, si, op[3]), spell(b, si, op[4])
+            m1, m2 = ("qn", name_uri(op[3])), ("qn", name_uri(op[4]))
+        else:
+            t1, t2 = {"t": op[5], "as": "dt"}, {"t": op[6], "as": "str"}
+            if _time_model(t1) == _time_model(t2) or _same_instant(_time_model(t1), _time_model(t2)):
+                return
+            v1, v2 = _time_py(t1), _time_py(t2)
+            m1, m2 = _time_model(t1), _time_model(t2)
+        if op[7]:
+            # while creating: the record's own formal arguments, then the chosen one named twice with different values
+            scope = b.scopes[si]
+            n_before = len(list(scope.get_records()))
+            pairs = [(a, v) for a, v in rec.attributes if a.uri != auri and a.uri in {spec.PROV_NS + x for x, _ in fargs}]
+            pairs += [(PROV[arg], v1), (PROV[arg], v2)]
+            try:
+                scope.new_record(rec.get_type(), rec.identifier, pairs)
+                items.append(_it("two_formal_values_accepted_at_creation", attr=auri, kind=m["kind"]))
+            except ProvException:
+                ctx.count("op:double_at_creation_refused")
+            if len(list(scope.get_records())) != n_before and not items:
+                items.append(_it("refused_creation_left_a_record"))
+            return
+        cur = [v for a, v in m["attrs"] if a == auri]
+        before = crecord(rec)
+        try:
+            rec.add_attributes([(PROV[arg], v1), (PROV[arg], v2)])
+            items.append(_it("two_formal_values_accepted_in_one_call", attr=auri, rec=str(rec)[:100]))
+        except ProvException:
+            ctx.count("op:double_refused")
+        have = [v for a, v in rec.attributes if a.uri == auri]
+        if len(have) > 1 and not items:
+            items.append(_it("formal_multi_valued_after_refusal", attr=auri))
+        if cur:
+            if crecord(rec) != before and not items:
+                items.append(_it("refusal_changed_record"))
+        elif len(have) == 1:
+            # the first of the two values may have been taken before the second was refused
+            from ..canon import cval
+            m["attrs"].append((auri, cval(have[0])))
     elif code == "set_time":
         acts = [(si, r, m) for (si, r, m) in b.records if m["kind"] == "activity"]
         if not acts:
@@ -325,7 +397,7 @@ def check(case, ctx):
         apply_op(b, op)
     nt = False
     for op in case["ops"]:
-        if op[0] in ("readd", "set_time", "asserted_type"):
+        if op[0] in ("readd", "double", "set_time", "asserted_type"):
             _c05_op(b, op, items, ctx)
             nt = True
         elif op[0] == "set_default":
